@@ -85,16 +85,30 @@ Theorem C02_invariance : forall gs st c1 c2 e1 e2 s1 s2 o1 o2,
        forall idx2', in_bounds (ashape (go_data o2)) idx2' = true -> apply_aff (go_T o2) idx2' = Some idx -> idx2' = idx2).
 Proof. exact invariance_reachable. Qed.
 
-(** (d) The output dtype is that of the first sorted file, except that "uint16" with fewer than 16 stored bits
-    becomes "int16" (BitsStored defaults to 16). *)
+(** (d) The output dtype (fix 63f686b): with [dl] the dtypes of ALL files of the stack (lattice int8, uint8, int16,
+    uint16, int32, float32, float64) the array gets numpy's [result_type dl] = [j] - an upper bound of every file's
+    dtype for the binary promotion, so no file's values are cast down - except that "uint16" becomes "int16" when
+    every file stores fewer than 16 bits (BitsStored, default 16; maximum over all files). *)
 Theorem C02_dtype : forall gs st code embed st' go,
   reachable st -> conv_geom gs st code embed = (st', Ok go) ->
-  file_at gs (go_ord0 go) 0 = Some (go_first go) /\
-  go_dtype go = (if g_unsigned16 (go_first go) && (bits_stored_of (go_first go) <? 16)
-                 then int16_str else g_dtype (go_first go)) /\
-  (go_dtype go = int16_str <->
-   (g_dtype (go_first go) = uint16_str /\ bits_stored_of (go_first go) < 16) \/ g_dtype (go_first go) = int16_str).
+  length (go_files go) = length (go_ord0 go) /\
+  (forall k, k < length (go_ord0 go) -> nth_error (go_files go) k = file_at gs (go_ord0 go) k) /\
+  exists dl,
+    map (fun g => dt_of_name (g_dtype g)) (go_files go) = map Some dl /\ dl <> [] /\
+    let j := result_type dl in
+    let bits := fold_left Nat.max (map bits_stored_of (go_files go)) 0 in
+    go_dtype go = (if dt_eqb j DUint16 && (bits <? 16) then dt_name DInt16 else dt_name j) /\
+    (forall d, In d dl -> promote d j = j) /\
+    (forall g, In g (go_files go) -> bits_stored_of g <= bits).
 Proof. exact dtype_reachable. Qed.
+
+(** [result_type] depends only on the SET of dtypes (the order in which Python enumerates its set does not
+    matter) and is an upper bound of each member; the binary promotion is commutative and idempotent. *)
+Theorem C02_dtype_lattice :
+  (forall l l', (forall d, In d l <-> In d l') -> result_type l = result_type l') /\
+  (forall l d, In d l -> promote d (result_type l) = result_type l) /\
+  (forall a b, promote a b = promote b a) /\ (forall a, promote a a = a).
+Proof. exact result_type_facts. Qed.
 
 (* ----------------------------------------------------------------------------- non-vacuity *)
 (** a sagittal series, 2 x 2 pixels, 3 slices x 2 time points, added in scrambled order, converted with
@@ -140,5 +154,15 @@ Proof.
 Qed.
 
 Example C02_dtype_ex :
-  g_dtype (go_first ex_go) = uint16_str /\ bits_stored_of (go_first ex_go) = 12 /\ go_dtype ex_go = int16_str.
+  map g_dtype (go_files ex_go) = repeat (dt_name DUint16) 6 /\ map bits_stored_of (go_files ex_go) = repeat 12 6 /\
+  go_dtype ex_go = dt_name DInt16 /\
+  (* a series in which one file was rescaled (float64) and another is signed *)
+  out_dtype [ex_gfile 0 0; ex_gfile_dt 1 0 (dt_name DFloat64); ex_gfile 2 0] = Ok (dt_name DFloat64) /\
+  out_dtype [ex_gfile 0 0; ex_gfile_dt 1 0 (dt_name DInt16)] = Ok (dt_name DInt32).
+Proof. repeat split. Qed.
+
+Example C02_dtype_lattice_ex :
+  promote DUint16 DInt16 = DInt32 /\ promote DInt32 DFloat32 = DFloat64 /\ promote DUint8 DUint16 = DUint16 /\
+  (* not a fold of the binary promotion: *)
+  result_type [DInt16; DUint16; DFloat32] = DFloat32 /\ promote (promote DInt16 DUint16) DFloat32 = DFloat64.
 Proof. repeat split. Qed.
